@@ -380,6 +380,14 @@ def run(ctx):
     missing = [c["name"] for c in tab["commands"] if c["name"] not in stats.get("commands", {})]
     if missing:
         raise common.Infra("commands of the table that were never executed: %s" % ", ".join(missing))
+    # not only error paths: every command that can succeed on these servers did succeed in JSON mode at least once
+    # (DevMode is off: SHUTDOWN, MASSINSERT, SLEEP are unknown; HELLO, COMMAND, bare CONFIG / SCRIPT always fail, AUTH
+    # without a password set too; the live commands are judged by their own records)
+    never_ok = {"shutdown", "massinsert", "sleep", "hello", "command", "config", "script", "auth",
+                "aof", "monitor", "quit", "subscribe", "psubscribe"}
+    noreply = [c["name"] for c in tab["commands"] if c["name"] not in never_ok and not stats.get("ok_replies", {}).get(c["name"])]
+    if noreply:
+        raise common.Infra("commands that never answered ok = true (only their error paths were compared): %s" % ", ".join(noreply))
     common.write_evidence(ctx, "model_checking", {
         "states": gen["distinct"] + ksstates + sim["generated"],
         "transitions": gen["generated"] + kstrans + sim["generated"],
@@ -402,6 +410,8 @@ def run(ctx):
         "selftest_damaged_lines": selftest["damaged"],
         "selftest_rejected": selftest["caught"],
         "shapes": stats.get("shapes", {}),
+        "commands_answering_ok": len([k for k, v in stats.get("ok_replies", {}).items() if v]),
+        "commands_answering_error": len([k for k, v in stats.get("err_replies", {}).items() if v]),
         "exhaustive": True,
         "explanation": "TLC enumerated every cell (instance x argument shape x naming) of the command table extracted from "
                        "the source and the mode machine; every cell was executed on one real server per lane; TLC "
